@@ -1034,19 +1034,23 @@ func vRunC09Case(out *vOut, r *vRand, id int, stats map[string]int) {
 		case 1:
 			// cut-off somewhere around the message times written so far
 			ttl := int64(1000 + r.intn(int(c.nextTs-1000)+6))
+			// last-write times in order before the FIRST clean: the hypothesis of C09_repeated_clean_idempotent
+			// (C09_repeat_needs_one_clock: without it the byte or message limit can expose an expired segment
+			// that the age pass had stopped in front of, and a second Clean rightly removes it)
+			sorted := true
+			if first := c.segInfo(); true {
+				for k := 1; k < len(first); k++ {
+					if first[k].lastTs < first[k-1].lastTs {
+						sorted = false
+					}
+				}
+			}
 			c.layout()
 			c.doCleanRetention(ttl)
 			c.layout()
 			if !c.viol && r.intn(3) == 0 {
-				// repeated clean, same limits and cut-off (C09_repeated_clean_idempotent): with last-write
-				// times in order nothing more may go
+				// repeated clean, same limits and cut-off: nothing more may go
 				before := c.segInfo()
-				sorted := true
-				for k := 1; k < len(before); k++ {
-					if before[k].lastTs < before[k-1].lastTs {
-						sorted = false
-					}
-				}
 				c.doCleanRetention(ttl)
 				c.layout()
 				c.stats["clean-repeated-same-cutoff"]++
